@@ -1,20 +1,28 @@
 (* DC09.v — dispatch entries of property C09 (consistency between point lookup, zoom change, merge and overlap check).
    Every entry's Go invoker performs several related calls of the REAL functions and returns all results;
-   corr = each result equals what the composed models (PointF + libm oracle, ChangeZoom, Merge, Consistency.overlap_check_api) predict;
-   prop = the checker of Consistency.v (proved equivalent to its specification) accepts the observed results — it only relates the
-          observed results to each other (no external reference), as the property says;
-   class = "alt_underflow" exactly as DC01 decides it (the code's vertical index differs from the exact floor and the altitude is in
-           FF.alt_underflow at that zoom), evaluated only when the model agrees and the checker rejects.
-   Calls whose result would be huge are refused by the invoker with a marker (the shrinker may propose them) and pass here. *)
-From Coq Require Import ZArith String List Bool Floats.
-From SID Require Import Base Str Ids Wire ZoomCore ChangeZoom Merge MergeApi F64 ExactRef PointF FF Consistency.
+   corr  = each result equals what the composed models (PointF + libm oracle, ChangeZoom, Merge, Consistency.overlap_check_api) predict
+           (zoom-change results are put by the invoker into the model's loop order — y, then x, then f — and compared as lists),
+           AND the validated assumption of the latitude theorems holds on this case (the libm float m is finite with 0 <= m < 2);
+   prop  = prop_nesting / prop_ladder / prop_in_out / prop_merge_desc below: the checker of Consistency.v (proved equivalent to its
+           specification) applied to the observed value; it only relates the observed results to each other (no external reference);
+           `*_verdict` theorems at the end say what a verdict with prop = true and class "-" means;
+   class = "alt_underflow" (D12) ONLY when the failure is explained by the vertical axis alone: every other conjunct of the checker holds
+           on the observed values, every observed vertical index is either the exact floor or has the defect's shape (the code answered 0,
+           the exact floor is -1, and the quotient alt/2^(25-v) rounds to -0: Consistency.alt_vanishes_b), at least one has, and the exact
+           floors are nested;
+           "skipped" when the invoker refused an over-size call AND this entry's own estimate exceeds the cap.
+   Outside the entry's domain — non-finite or out-of-range coordinates (NewPoint accepts NaN and any altitude, the property's "valid points"
+   are lon in [-180,180], |lat| <= 85.0511287798, alt in [-2^25, 2^25)), parseable-but-invalid IDs, a zoom-out target in ZoomInOut,
+   a marker without an over-size estimate — the answer is bad_case, never a pass. *)
+From Coq Require Import ZArith String List Bool Floats Lia.
+From SID Require Import Base Str Ids Wire ZoomCore ChangeZoom Merge MergeApi F64 ExactRef PointF FF YF Consistency.
 Import ListNotations.
 Open Scope string_scope.
 Open Scope Z_scope.
 
 Definition skip_marker : string := "skipped-too-large".
 Definition is_skip (obs : val) : bool := match obs with VS s => String.eqb s skip_marker | _ => false end.
-Definition pass : verdict := mkv true true "-" VNil.
+Definition skipv : verdict := mkv true true "skipped" VNil.
 Definition expect_error (obs : val) : verdict := let e := is_err obs in mkv e e "-" (VE VNil).
 Definition cap : Z := 4096.
 
@@ -27,20 +35,18 @@ Definition as_point (v : val) : option point :=
   end.
 Definition as_zz (v : val) : option (Z * Z) := match v with VL [VZ a; VZ b] => Some (a, b) | _ => None end.
 Definition as_zzs (v : val) : option (list (Z * Z)) := match as_L v with Some l => all_opt (map as_zz l) | None => None end.
+Definition as_bools (l : list val) : option (list bool) := all_opt (map as_B l).
 Definition res_strings (r : result (list string)) : val := match r with Ok l => of_LS l | Err => VE VNil end.
 Definition set_eq (m o : list string) : bool := same_set m o && Nat.eqb (List.length m) (List.length o).
 
-(* the recorded finding class of C01/C09 (D12), decided as DC01.class_point decides it *)
-Definition class_alt (p : point) (v : Z) : bool :=
-  match f_f (palt p) v, exact_f (palt p) v with
-  | Some f, Some f' => negb (f =? f') && alt_underflow_b (palt p) v
-  | _, _ => false
-  end.
-Definition class_of (p : point) (vs : list Z) : string := if existsb (class_alt p) vs then "alt_underflow" else "-".
+(* the property's "valid points", on the stored floats (NaN fails every comparison) *)
+Definition in_domain_point (p : point) : bool :=
+  (abs (plon p) <=? 180)%float && (abs (plat p) <=? c_latmax)%float && (- pow2f 25 <=? palt p)%float && (palt p <? pow2f 25)%float.
+(* the validated assumption of the latitude theorems: the float m = 1 - Log(Tan r + 1/Cos r)/Pi computed from Go's libm answers is finite
+   and 0 <= m < 2 (infinities and NaN fail the comparisons) *)
+Definition libm_guard (oracle : oracle_t) (p : point) : bool :=
+  let m := merc_m (ofun oracle "tan") (ofun oracle "cos") (ofun oracle "log") (plat p) in (0 <=? m)%float && (m <? 2)%float.
 
-(* policy shared with the invokers: the overlap function is called only on zoom pairs that are close enough for a wrong choice of the
-   common zoom to stay cheap; zoom-in results are bounded by `cap` *)
-Definition ovl_called (h1 v1 h2 v2 : Z) : bool := 2 * Z.abs (h1 - h2) + Z.abs (v1 - v2) <=? 18.
 Definition chg_cost (h1 v1 h2 v2 : Z) : Z := 4 ^ Z.max 0 (h2 - h1) * 2 ^ Z.max 0 (v2 - v1).
 Definition zooms_ok (l : list Z) : bool := forallb check_zoom l.
 
@@ -50,160 +56,235 @@ Definition point_id (oracle : oracle_t) (p : point) (h v : Z) : option string :=
   | Ok [s] => Some s
   | _ => None
   end.
-Definition ovl_model (s1 s2 : string) (h1 v1 h2 v2 : Z) : option (result bool) :=
-  if ovl_called h1 v1 h2 v2 then Some (overlap_check_api s1 s2) else None.
-Definition ovl_val (m : option (result bool)) : val :=
-  match m with Some (Ok b) => VB b | Some Err => VE VNil | None => VNil end.
-Definition ovl_agrees (m : option (result bool)) (o : val) : bool :=
-  match m, o with
-  | Some (Ok b), VB b' => Bool.eqb b b'
-  | None, VNil => true
-  | _, _ => false
-  end.
-Definition ovl_obs (o : val) : option bool := match o with VB b => Some b | _ => None end.
-Definition ovl_present (called : bool) (o : val) : bool := if called then match o with VB _ => true | _ => false end else true.
+Definition ovl_val (m : result bool) : val := match m with Ok b => VB b | Err => VE VNil end.
+Definition ovl_agrees (m : result bool) (o : bool) : bool := match m with Ok b => Bool.eqb b o | Err => false end.
 
-(* ---- PointNesting: [stored point; h1; v1; h2; v2] ↦ [ID at (h1,v1); ID at (h2,v2); ChangeExtendedSpatialIdsZoom([ID1], h2, v2);
-        CheckExtendedSpatialIdsOverlap(ID1, ID2) or nil when not called] ---- *)
+(* ---- the shape of the recorded defect on one observed vertical index: Some (exact floor, has-the-defect) or None (unexplained) ---- *)
+Definition f_explained (p : point) (v f : Z) : option (Z * bool) :=
+  match exact_f (palt p) v with
+  | Some f' => if f =? f' then Some (f', false)
+               else if alt_vanishes_b (palt p) v && alt_underflow_b (palt p) v && (f =? 0) && (f' =? -1) then Some (f', true)
+               else None
+  | None => None
+  end.
+
+(* ================================================================================================================== *)
+(* PointNesting: [stored point; h1; v1; h2; v2] ↦ [ID at (h1,v1); ID at (h2,v2); ChangeExtendedSpatialIdsZoom([ID1], h2, v2);
+   CheckExtendedSpatialIdsOverlap(ID1, ID2)]                                                                          *)
+(* ================================================================================================================== *)
+Definition prop_nesting (h1 v1 h2 v2 : Z) (obs : val) : bool :=
+  match obs with
+  | VL [VS o1; VS o2; ochg; VB b] =>
+      match as_LS ochg with Some lc => check_nesting h1 v1 h2 v2 o1 o2 lc b | None => false end
+  | _ => false
+  end.
+Definition explained_nesting (p : point) (h1 v1 h2 v2 : Z) (obs : val) : bool :=
+  match obs with
+  | VL [VS o1; VS o2; ochg; VB b] =>
+      match as_LS ochg, parse_eid o1, parse_eid o2 with
+      | Some lc, Some e1, Some e2 =>
+          (eh e1 =? h1) && (ev e1 =? v1) && (eh e2 =? h2) && (ev e2 =? v2) && validb e1 && validb e2 &&
+          rel1b h1 (ex e1) h2 (ex e2) && rel1b h1 (ey e1) h2 (ey e2) &&
+          check_change [e1] h2 v2 lc && Bool.eqb b (overlapsb e1 e2) &&
+          match f_explained p v1 (ef e1), f_explained p v2 (ef e2) with
+          | Some (f1, d1), Some (f2, d2) => (d1 || d2) && rel1b v1 f1 v2 f2
+          | _, _ => false
+          end
+      | _, _, _ => false
+      end
+  | _ => false
+  end.
+Definition corr_nesting (s1 s2 : string) (mchg : result (list string)) (movl : result bool) (obs : val) : bool :=
+  match obs with
+  | VL [VS o1; VS o2; ochg; VB b] =>
+      match as_LS ochg with
+      | Some lc => String.eqb o1 s1 && String.eqb o2 s2 && (match mchg with Ok ml => same_list ml lc | Err => false end) && ovl_agrees movl b
+      | None => false
+      end
+  | _ => false
+  end.
+Definition d_nesting_core (oracle : oracle_t) (p : point) (h1 v1 h2 v2 : Z) (obs : val) : verdict :=
+  if negb (zooms_ok [h1; v1; h2; v2]) then (if is_skip obs then bad_case else expect_error obs)
+  else if cap <? chg_cost h1 v1 h2 v2 then (if is_skip obs then skipv else bad_case)
+  else if is_skip obs then bad_case
+  else if negb (in_domain_point p) then bad_case
+  else match point_id oracle p h1 v1, point_id oracle p h2 v2 with
+       | Some s1, Some s2 =>
+           let mchg := change_one_fast s1 h2 v2 in        (* = change_ext_api [s1] h2 v2: Consistency.change_one_fast_spec *)
+           let movl := overlap_check_api s1 s2 in
+           let corr := corr_nesting s1 s2 mchg movl obs && libm_guard oracle p in
+           let prop := prop_nesting h1 v1 h2 v2 obs in
+           mkv corr prop (if corr && negb prop && explained_nesting p h1 v1 h2 v2 obs then "alt_underflow" else "-")
+               (VL [VS s1; VS s2; res_strings mchg; ovl_val movl])
+       | _, _ => bad_case
+       end.
 Definition d_nesting (oracle : oracle_t) (args : list val) (obs : val) : verdict :=
   match args with
   | [pv; VZ h1; VZ v1; VZ h2; VZ v2] =>
-      match as_point pv with
-      | Some p =>
-          if is_skip obs then pass
-          else if negb (zooms_ok [h1; v1; h2; v2]) then expect_error obs
-          else if cap <? chg_cost h1 v1 h2 v2 then pass
-          else match point_id oracle p h1 v1, point_id oracle p h2 v2 with
-               | Some s1, Some s2 =>
-                   let mchg := change_one_fast s1 h2 v2 in        (* = change_ext_api [s1] h2 v2: Consistency.change_one_fast_spec *)
-                   let movl := ovl_model s1 s2 h1 v1 h2 v2 in
-                   let mval := VL [VS s1; VS s2; res_strings mchg; ovl_val movl] in
-                   match obs with
-                   | VL [VS o1; VS o2; ochg; oovl] =>
-                       match as_LS ochg with
-                       | Some lc =>
-                           let corr := String.eqb o1 s1 && String.eqb o2 s2 &&
-                                       (match mchg with Ok ml => set_eq ml lc | Err => false end) && ovl_agrees movl oovl in
-                           let prop := check_nesting h1 v1 h2 v2 o1 o2 lc (ovl_obs oovl) &&
-                                       ovl_present (ovl_called h1 v1 h2 v2) oovl in
-                           mkv corr prop (if corr && negb prop then class_of p [v1; v2] else "-") mval
-                       | None => bad_case
-                       end
-                   | _ => mkv false false "-" mval        (* an error although all arguments are in the domain *)
-                   end
-               | _, _ => bad_case
-               end
-      | None => bad_case
-      end
+      match as_point pv with Some p => d_nesting_core oracle p h1 v1 h2 v2 obs | None => bad_case end
   | _ => bad_case
   end.
 
-(* ---- ZoomInOut: [ID; H; V] ↦ [number of IDs after ChangeExtendedSpatialIdsZoom([ID], H, V); that list changed back to the ID's own zooms] ---- *)
+(* ================================================================================================================== *)
+(* ZoomInOut: [ID; H; V] ↦ [ChangeExtendedSpatialIdsZoom([ID], H, V); that list changed back to the ID's own zooms]    *)
+(* ================================================================================================================== *)
+Definition prop_in_out (id : string) (H V : Z) (obs : val) : bool :=
+  match obs with
+  | VL [omid; oback] =>
+      match as_LS omid, as_LS oback with
+      | Some lm, Some lb => check_in_out id H V (Z.of_nat (List.length lm)) lb
+      | _, _ => false
+      end
+  | _ => false
+  end.
+Definition corr_in_out (mid : list string) (mback : result (list string)) (obs : val) : bool :=
+  match obs with
+  | VL [omid; oback] =>
+      match as_LS omid, as_LS oback with
+      | Some lm, Some lb => same_list mid lm && (match mback with Ok mb => set_eq mb lb | Err => false end)
+      | _, _ => false
+      end
+  | _ => false
+  end.
+Definition d_in_out_core (id : string) (H V : Z) (obs : val) : verdict :=
+  match parse_eid id with
+  | None => if is_skip obs then bad_case else expect_error obs
+  | Some i =>
+      if negb (check_zoom H && check_zoom V) then (if is_skip obs then bad_case else expect_error obs)
+      else if negb (validb i) then bad_case                                   (* outside the property's quantifier *)
+      else if negb ((eh i <=? H) && (ev i <=? V)) then bad_case               (* not a zoom-in: outside this entry *)
+      else if cap <? 4 ^ (H - eh i) * 2 ^ (V - ev i) then (if is_skip obs then skipv else bad_case)
+      else if is_skip obs then bad_case
+      else match change_one_fast id H V with                                  (* = change_ext_api [id] H V *)
+           | Ok mid =>
+               let mback := Ok [print_eid i] in      (* = change_ext_api mid (eh i) (ev i) on this branch: Consistency.zoom_in_out_api *)
+               mkv (corr_in_out mid mback obs) (prop_in_out id H V obs) "-" (VL [of_LS mid; res_strings mback])
+           | Err => bad_case
+           end
+  end.
 Definition d_in_out (args : list val) (obs : val) : verdict :=
   match args with
-  | [VS id; VZ H; VZ V] =>
-      if is_skip obs then pass
-      else match parse_eid id with
-           | None => expect_error obs
-           | Some i =>
-               if negb (check_zoom H && check_zoom V) then expect_error obs
-               else if negb (validb i) then pass                      (* outside the property's quantifier *)
-               else if cap <? 4 ^ Z.abs (H - eh i) * 2 ^ Z.abs (V - ev i) then pass
-               else match change_one_fast id H V with           (* = change_ext_api [id] H V *)
-                    | Ok mid =>
-                        let mback := change_ext_api mid (eh i) (ev i) in
-                        let mval := VL [VZ (Z.of_nat (List.length mid)); res_strings mback] in
-                        match obs with
-                        | VL [VZ n; oback] =>
-                            match as_LS oback with
-                            | Some lb =>
-                                let corr := (n =? Z.of_nat (List.length mid)) && (match mback with Ok mb => set_eq mb lb | Err => false end) in
-                                let prop := if (eh i <=? H) && (ev i <=? V) then check_in_out id H V n lb else true in
-                                mkv corr prop "-" mval
-                            | None => bad_case
-                            end
-                        | _ => mkv false false "-" mval
-                        end
-                    | Err => expect_error obs
-                    end
-           end
+  | [VS id; VZ H; VZ V] => d_in_out_core id H V obs
   | _ => bad_case
   end.
 
-(* ---- MergeDescendants: [ID; dh; dv; seed] ↦ [the descendants at (h+dh, v+dv) shuffled / repeated by the seed;
-        MergeExtendedSpatialIds(that list, h, v)] ---- *)
+(* ================================================================================================================== *)
+(* MergeDescendants: [ID; dh; dv; seed] ↦ [the descendants at (h+dh, v+dv) shuffled / repeated by the seed;
+   MergeExtendedSpatialIds(that list, h, v)]                                                                          *)
+(* ================================================================================================================== *)
+Definition prop_merge_desc (id : string) (obs : val) : bool :=
+  match obs with
+  | VL [olist; omerged] =>
+      match as_LS olist, as_LS omerged with
+      | Some _, Some lm => check_merge_desc id lm
+      | _, _ => false
+      end
+  | _ => false
+  end.
+Definition corr_merge_desc (D : list string) (h v : Z) (obs : val) : bool :=
+  match obs with
+  | VL [olist; omerged] =>
+      match as_LS olist, as_LS omerged with
+      | Some ll, Some lm => same_set D ll && (match merge_ext_api ll h v with Ok m => set_eq m lm | Err => false end)
+      | _, _ => false
+      end
+  | _ => false
+  end.
+Definition merge_desc_in_range (i : eid) (dh dv : Z) : bool :=
+  (0 <=? dh) && (dh <=? 3) && (0 <=? dv) && (dv <=? 4) && (eh i + dh <=? 35) && (ev i + dv <=? 35).
+Definition d_merge_desc_core (id : string) (dh dv : Z) (obs : val) : verdict :=
+  match parse_eid id with
+  | None => if is_skip obs then bad_case else expect_error obs
+  | Some i =>
+      if negb (validb i) then bad_case
+      else if negb (merge_desc_in_range i dh dv) then (if is_skip obs then skipv else bad_case)
+      else if is_skip obs then bad_case
+      else
+        let D := map print_eid (one (eh i + dh) (ev i + dv) i) in      (* = change_eids [i] ..: Consistency.change_single *)
+        mkv (corr_merge_desc D (eh i) (ev i) obs) (prop_merge_desc id obs) "-" (VL [of_LS D; of_LS [print_eid i]])
+  end.
 Definition d_merge_desc (args : list val) (obs : val) : verdict :=
   match args with
-  | [VS id; VZ dh; VZ dv; VZ _] =>
-      if is_skip obs then pass
-      else match parse_eid id with
-           | None => expect_error obs
-           | Some i =>
-               if negb (validb i) then pass
-               else if negb ((0 <=? dh) && (dh <=? 3) && (0 <=? dv) && (dv <=? 4) && (eh i + dh <=? 35) && (ev i + dv <=? 35)) then pass
-               else
-                 let D := map print_eid (one (eh i + dh) (ev i + dv) i) in      (* = change_eids [i] ..: Consistency.change_single *)
-                 match obs with
-                 | VL [olist; omerged] =>
-                     match as_LS olist, as_LS omerged with
-                     | Some ll, Some lm =>
-                         let mm := merge_ext_api ll (eh i) (ev i) in
-                         let corr := same_set D ll && (match mm with Ok m => set_eq m lm | Err => false end) in
-                         let prop := check_merge_desc id lm in
-                         mkv corr prop "-" (VL [of_LS D; res_strings mm])
-                     | _, _ => bad_case
-                     end
-                 | _ => mkv false false "-" (VL [of_LS D; of_LS [print_eid i]])
-                 end
-           end
+  | [VS id; VZ dh; VZ dv; VZ _] => d_merge_desc_core id dh dv obs
   | _ => bad_case
   end.
 
-(* ---- PointLadder: [stored point; zoom pairs; index pairs] ↦ [the point's ID at every zoom pair;
-        CheckExtendedSpatialIdsOverlap on the listed pairs of those IDs (nil where not called)] ---- *)
-Definition nth_zz (zs : list (Z * Z)) (a : Z) : option (Z * Z) := if a <? 0 then None else nth_error zs (Z.to_nat a).
-Definition nth_s (l : list string) (a : Z) : option string := if a <? 0 then None else nth_error l (Z.to_nat a).
-Definition pair_model (zs : list (Z * Z)) (ids : list string) (ab : Z * Z) : option (result bool) :=
-  match nth_zz zs (fst ab), nth_zz zs (snd ab), nth_s ids (fst ab), nth_s ids (snd ab) with
-  | Some (h1, v1), Some (h2, v2), Some s1, Some s2 => ovl_model s1 s2 h1 v1 h2 v2
-  | _, _, _, _ => None
-  end.
-Definition pair_called (zs : list (Z * Z)) (ab : Z * Z) : bool :=
-  match nth_zz zs (fst ab), nth_zz zs (snd ab) with
-  | Some (h1, v1), Some (h2, v2) => ovl_called h1 v1 h2 v2
-  | _, _ => false
-  end.
+(* ================================================================================================================== *)
+(* PointLadder: [stored point; zoom pairs; index pairs] ↦ [the point's ID at every zoom pair;
+   CheckExtendedSpatialIdsOverlap on the listed pairs of those IDs]                                                   *)
+(* ================================================================================================================== *)
+Definition nth_z {A} (l : list A) (a : Z) : option A := if a <? 0 then None else nth_error l (Z.to_nat a).
+Definition pairs_ok (n : nat) (pairs : list (Z * Z)) : bool :=
+  forallb (fun ab => (0 <=? fst ab) && (fst ab <? Z.of_nat n) && (0 <=? snd ab) && (snd ab <? Z.of_nat n)) pairs.
 Fixpoint all2 {A B} (f : A -> B -> bool) (a : list A) (b : list B) : bool :=
   match a, b with
   | [], [] => true
   | x :: r, y :: s => f x y && all2 f r s
   | _, _ => false
   end.
+Definition pair_model (ids : list string) (ab : Z * Z) : result bool :=
+  match nth_z ids (fst ab), nth_z ids (snd ab) with
+  | Some s1, Some s2 => overlap_check_api s1 s2
+  | _, _ => Err
+  end.
+Definition prop_ladder (zs pairs : list (Z * Z)) (obs : val) : bool :=
+  match obs with
+  | VL [oids; VL obools] =>
+      match as_LS oids, as_bools obools with
+      | Some li, Some lb => check_ladder zs li lb && Nat.eqb (List.length lb) (List.length pairs)
+      | _, _ => false
+      end
+  | _ => false
+  end.
+Definition corr_ladder (ids : list string) (pairs : list (Z * Z)) (obs : val) : bool :=
+  match obs with
+  | VL [oids; VL obools] =>
+      match as_LS oids, as_bools obools with
+      | Some li, Some lb => same_list ids li && all2 ovl_agrees (map (pair_model ids) pairs) lb
+      | _, _ => false
+      end
+  | _ => false
+  end.
+Definition explained_ladder (p : point) (zs pairs : list (Z * Z)) (obs : val) : bool :=
+  match obs with
+  | VL [oids; VL obools] =>
+      match as_LS oids, as_bools obools with
+      | Some li, Some lb =>
+          match map_opt parse_eid li with
+          | Some es =>
+              list_eqb eqb2 (zooms_of es) zs && forallb validb es &&
+              all_pairs (fun a b => rel1b (eh a) (ex a) (eh b) (ex b) && rel1b (eh a) (ey a) (eh b) (ey b)) es &&
+              all2 (fun ab b => match nth_z es (fst ab), nth_z es (snd ab) with
+                                | Some a, Some c => Bool.eqb b (overlapsb a c)
+                                | _, _ => false end) pairs lb &&
+              match all_opt (map (fun e => f_explained p (ev e) (ef e)) es) with
+              | Some fs => existsb snd fs &&
+                           all_pairs (fun a b => rel1b (fst a) (snd a) (fst b) (snd b)) (combine (map ev es) (map fst fs))
+              | None => false
+              end
+          | None => false
+          end
+      | _, _ => false
+      end
+  | _ => false
+  end.
+Definition d_ladder_core (oracle : oracle_t) (p : point) (zs pairs : list (Z * Z)) (obs : val) : verdict :=
+  if negb (forallb (fun z => check_zoom (fst z) && check_zoom (snd z)) zs) then (if is_skip obs then bad_case else expect_error obs)
+  else if is_skip obs then bad_case                                  (* this entry never refuses: every call is a point lookup or a zoom-out *)
+  else if negb (in_domain_point p) || negb (pairs_ok (List.length zs) pairs) then bad_case
+  else match all_opt (map (fun z => point_id oracle p (fst z) (snd z)) zs) with
+       | Some ids =>
+           let corr := corr_ladder ids pairs obs && libm_guard oracle p in
+           let prop := prop_ladder zs pairs obs in
+           mkv corr prop (if corr && negb prop && explained_ladder p zs pairs obs then "alt_underflow" else "-")
+               (VL [of_LS ids; VL (map (fun ab => ovl_val (pair_model ids ab)) pairs)])
+       | None => bad_case
+       end.
 Definition d_ladder (oracle : oracle_t) (args : list val) (obs : val) : verdict :=
   match args with
   | [pv; zv; pairsv] =>
       match as_point pv, as_zzs zv, as_zzs pairsv with
-      | Some p, Some zs, Some pairs =>
-          if is_skip obs then pass
-          else if negb (forallb (fun z => check_zoom (fst z) && check_zoom (snd z)) zs) then expect_error obs
-          else match all_opt (map (fun z => point_id oracle p (fst z) (snd z)) zs) with
-               | Some ids =>
-                   let mb := map (pair_model zs ids) pairs in
-                   let mval := VL [of_LS ids; VL (map ovl_val mb)] in
-                   match obs with
-                   | VL [oids; VL obools] =>
-                       match as_LS oids with
-                       | Some li =>
-                           let corr := same_list ids li && all2 ovl_agrees mb obools in
-                           let prop := check_ladder zs li (map ovl_obs obools) &&
-                                       all2 (fun ab o => ovl_present (pair_called zs ab) o) pairs obools in
-                           mkv corr prop (if corr && negb prop then class_of p (map snd zs) else "-") mval
-                       | None => bad_case
-                       end
-                   | _ => mkv false false "-" mval
-                   end
-               | None => bad_case
-               end
+      | Some p, Some zs, Some pairs => d_ladder_core oracle p zs pairs obs
       | _, _, _ => bad_case
       end
   | _ => bad_case
@@ -211,3 +292,98 @@ Definition d_ladder (oracle : oracle_t) (args : list val) (obs : val) : verdict 
 
 Definition table_C09 : table :=
   [("PointNesting", d_nesting); ("ZoomInOut", fun _ => d_in_out); ("MergeDescendants", fun _ => d_merge_desc); ("PointLadder", d_ladder)].
+
+(* ================================================================================================================== *)
+(* What a verdict means: prop = true under class "-" is either the documented error on invalid arguments, or the       *)
+(* specification of Consistency.v on the observed value. Every other branch is bad_case (prop = false) or "skipped".   *)
+(* ================================================================================================================== *)
+Lemma bad_case_prop : v_prop bad_case = false. Proof. reflexivity. Qed.
+
+Ltac split_ifs :=
+  repeat match goal with
+         | |- context [if ?c then _ else _] => destruct c eqn:?
+         | |- context [match ?x with _ => _ end] => destruct x eqn:?
+         end.
+
+Theorem d_nesting_verdict oracle p h1 v1 h2 v2 obs :
+  v_prop (d_nesting_core oracle p h1 v1 h2 v2 obs) = true -> v_class (d_nesting_core oracle p h1 v1 h2 v2 obs) = "-" ->
+  (zooms_ok [h1; v1; h2; v2] = false /\ is_err obs = true) \/
+  (zooms_ok [h1; v1; h2; v2] = true /\ in_domain_point p = true /\
+   exists o1 o2 ochg lc b, obs = VL [VS o1; VS o2; ochg; VB b] /\ as_LS ochg = Some lc /\ nesting_spec h1 v1 h2 v2 o1 o2 lc b).
+Proof.
+  unfold d_nesting_core.
+  destruct (zooms_ok [h1; v1; h2; v2]) eqn:Z; cbn [negb].
+  2:{ destruct (is_skip obs); [discriminate|]. cbn. intros E _. left. auto. }
+  destruct (cap <? chg_cost h1 v1 h2 v2). { destruct (is_skip obs); cbn; discriminate. }
+  destruct (is_skip obs); [discriminate|].
+  destruct (in_domain_point p) eqn:D; cbn [negb]; [|discriminate].
+  destruct (point_id oracle p h1 v1) as [s1|]; [|discriminate]. destruct (point_id oracle p h2 v2) as [s2|]; [|discriminate].
+  cbn [v_prop v_class mkv]. intros P _. right. split; [reflexivity|]. split; [reflexivity|].
+  unfold prop_nesting in P.
+  destruct obs as [| | | |l| | | |]; try discriminate.
+  destruct l as [|a l]; [discriminate|]. destruct a; try discriminate.
+  destruct l as [|a l]; [discriminate|]. destruct a; try discriminate.
+  destruct l as [|ochg l]; [discriminate|]. destruct l as [|a l]; [discriminate|]. destruct a; try discriminate.
+  destruct l; [|discriminate]. destruct (as_LS ochg) as [lc|] eqn:EL; [|discriminate].
+  apply check_nesting_sound in P. eauto 10.
+Qed.
+
+Theorem d_in_out_verdict id H V obs :
+  v_prop (d_in_out_core id H V obs) = true -> v_class (d_in_out_core id H V obs) = "-" ->
+  ((parse_eid id = None \/ check_zoom H && check_zoom V = false) /\ is_err obs = true) \/
+  (exists omid oback lm lb, obs = VL [omid; oback] /\ as_LS omid = Some lm /\ as_LS oback = Some lb /\
+                            in_out_spec id H V (Z.of_nat (List.length lm)) lb).
+Proof.
+  unfold d_in_out_core. destruct (parse_eid id) as [i|] eqn:E.
+  2:{ destruct (is_skip obs); [discriminate|]. cbn. intros P _. left. auto. }
+  destruct (check_zoom H && check_zoom V) eqn:Z; cbn [negb].
+  2:{ destruct (is_skip obs); [discriminate|]. cbn. intros P _. left. auto. }
+  destruct (validb i); cbn [negb]; [|discriminate].
+  destruct ((eh i <=? H) && (ev i <=? V)); cbn [negb]; [|discriminate].
+  destruct (cap <? 4 ^ (H - eh i) * 2 ^ (V - ev i)). { destruct (is_skip obs); cbn; discriminate. }
+  destruct (is_skip obs); [discriminate|].
+  destruct (change_one_fast id H V) as [mid|]; [|discriminate].
+  cbn [v_prop v_class mkv]. intros P _. right. unfold prop_in_out in P.
+  destruct obs as [| | | |l| | | |]; try discriminate.
+  destruct l as [|omid l]; [discriminate|]. destruct l as [|oback l]; [discriminate|]. destruct l; [|discriminate].
+  destruct (as_LS omid) as [lm|] eqn:E1; [|discriminate]. destruct (as_LS oback) as [lb|] eqn:E2; [|discriminate].
+  apply check_in_out_sound in P. eauto 10.
+Qed.
+
+Theorem d_merge_desc_verdict id dh dv obs :
+  v_prop (d_merge_desc_core id dh dv obs) = true -> v_class (d_merge_desc_core id dh dv obs) = "-" ->
+  (parse_eid id = None /\ is_err obs = true) \/
+  (exists olist omerged ll lm, obs = VL [olist; omerged] /\ as_LS olist = Some ll /\ as_LS omerged = Some lm /\ merge_desc_spec id lm).
+Proof.
+  unfold d_merge_desc_core. destruct (parse_eid id) as [i|] eqn:E.
+  2:{ destruct (is_skip obs); [discriminate|]. cbn. intros P _. left. auto. }
+  destruct (validb i); cbn [negb]; [|discriminate].
+  destruct (merge_desc_in_range i dh dv); cbn [negb]. 2:{ destruct (is_skip obs); cbn; discriminate. }
+  destruct (is_skip obs); [discriminate|].
+  cbn [v_prop v_class mkv]. intros P _. right. unfold prop_merge_desc in P.
+  destruct obs as [| | | |l| | | |]; try discriminate.
+  destruct l as [|olist l]; [discriminate|]. destruct l as [|omerged l]; [discriminate|]. destruct l; [|discriminate].
+  destruct (as_LS olist) as [ll|] eqn:E1; [|discriminate]. destruct (as_LS omerged) as [lm|] eqn:E2; [|discriminate].
+  apply check_merge_desc_sound in P. eauto 10.
+Qed.
+
+Theorem d_ladder_verdict oracle p zs pairs obs :
+  v_prop (d_ladder_core oracle p zs pairs obs) = true -> v_class (d_ladder_core oracle p zs pairs obs) = "-" ->
+  (forallb (fun z => check_zoom (fst z) && check_zoom (snd z)) zs = false /\ is_err obs = true) \/
+  (in_domain_point p = true /\
+   exists oids obools li lb, obs = VL [oids; VL obools] /\ as_LS oids = Some li /\ as_bools obools = Some lb /\
+                             List.length lb = List.length pairs /\ ladder_spec zs li lb).
+Proof.
+  unfold d_ladder_core. destruct (forallb (fun z => check_zoom (fst z) && check_zoom (snd z)) zs) eqn:Z; cbn [negb].
+  2:{ destruct (is_skip obs); [discriminate|]. cbn. intros P _. left. auto. }
+  destruct (is_skip obs); [discriminate|].
+  destruct (in_domain_point p) eqn:D; cbn [negb orb]; [|discriminate].
+  destruct (pairs_ok (List.length zs) pairs); cbn [negb]; [|discriminate].
+  destruct (all_opt (map (fun z => point_id oracle p (fst z) (snd z)) zs)) as [ids|]; [|discriminate].
+  cbn [v_prop v_class mkv]. intros P _. right. split; [reflexivity|]. unfold prop_ladder in P.
+  destruct obs as [| | | |l| | | |]; try discriminate.
+  destruct l as [|oids l]; [discriminate|]. destruct l as [|ob l]; [discriminate|]. destruct ob as [| | | |obools| | | |]; try discriminate.
+  destruct l; [|discriminate].
+  destruct (as_LS oids) as [li|] eqn:E1; [|discriminate]. destruct (as_bools obools) as [lb|] eqn:E2; [|discriminate].
+  apply andb_true_iff in P. destruct P as [P L]. apply Nat.eqb_eq in L. apply check_ladder_sound in P. eauto 12.
+Qed.
